@@ -96,6 +96,23 @@ func judge(v sysex.Manufacturer, corrupt bool) {
 		report("parse:value:"+kind, v, b, fmt.Sprintf("parsed %+v", *p))
 		return
 	}
+	// a parsed value belongs to the caller: scribbling over it must not change
+	// what the package builds or parses afterwards
+	for i := range p.SendingData {
+		p.SendingData[i] ^= 0x55
+	}
+	p.Address[0] ^= 0x2A
+	copy(b, keep) // Parse hands out a view into its input: undo the scribbling there
+	b2 := v.SysEx()
+	p2, err2 := sysex.Parse(b2)
+	ok2 := err2 == nil && p2.Address == v.Address
+	if ok2 && !v.InfoRequest {
+		ok2 = bytes.Equal(p2.SendingData, v.SendingData)
+	}
+	if !ok2 {
+		report("parse:result-shared:"+kind, v, b2, "after modifying a parsed value, building and parsing the same message again gives something else")
+		return
+	}
 	if !corrupt {
 		return
 	}
@@ -192,12 +209,16 @@ func roland(part, parts int) {
 
 func mmcChecks(part, parts int) {
 	devs := []byte{0, 1, 127}
+	var reused mmc.GoTo // one receiver for all messages (like a long-lived device object)
 	one := func(g mmc.GoTo) {
 		ctx.Eval()
 		var back mmc.GoTo
 		b := g.SysEx()
 		if err := back.Parse(b); err != nil || back != g {
 			report("mmc:locate", g, b, fmt.Sprintf("Parse(SysEx()) gives %+v, err %v", back, err))
+		}
+		if err := reused.Parse(b); err != nil || reused != g {
+			report("mmc:locate:receiver-reused", g, b, fmt.Sprintf("parsing into a receiver that held an earlier message gives %+v, err %v", reused, err))
 		}
 	}
 	if ctx.Thorough() {
@@ -214,6 +235,14 @@ func mmcChecks(part, parts int) {
 		}
 	}
 	if part == 0 {
+		// every ordered pair of device ids through the same receiver
+		ids := []byte{1, 2, 64, 126, 127, 0, 1, 126, 2}
+		for _, a := range ids {
+			for _, b := range ids {
+				one(mmc.GoTo{DeviceID: a, Hour: 1, Minute: 2, Second: 3, Frame: 4, SubFrame: 5})
+				one(mmc.GoTo{DeviceID: b, Hour: 5, Minute: 4, Second: 3, Frame: 2, SubFrame: 1})
+			}
+		}
 		maxes := []int{24, 60, 60, 30, 100}
 		for _, d := range devs {
 			for _, bs := range [][5]int{{0, 0, 0, 0, 0}, {23, 59, 59, 29, 99}} {
